@@ -185,7 +185,13 @@ def case_world(ctx, case):
             ctx.count('coincident_pairs')
         # the call, with varying argument styles
         style = rng.random()
-        if style < 0.15 and all(abs(v) < 2 ** 31 for v in list(q) + [L] + AL):
+        if style >= 0.8 and any(abs(v) > 2 ** 52 for v in [L] + [c_ for a_ in order for c_ in a_[P].xyz()]):
+            # the defaulted z query is the FLOAT 0.0: with integers beyond 2**52 in play, which side of a box face an agent is on would then
+            # depend on how the implementation rounds (difference first or bounds first) - all arguments stay exact ints here
+            style = 0.5
+        if style < 0.15 and all(abs(v) < 2 ** 31 for v in list(q) + [L] + AL + [c_ for a_ in order for c_ in a_[P].xyz()]):
+            # (every number involved - the residents' coordinates too - well inside 64 bits: numpy arithmetic between a numpy integer and a
+            #  Python int beyond 64 bits overflows inside numpy, whatever the library does)
             # the same numbers as numpy scalars (coordinates / leeways read from arrays)
             import numpy as np
             N = lambda v: (np.int64(v) if isinstance(v, int) else np.float64(v))    # noqa
